@@ -155,6 +155,7 @@ def run(tier):
     check_printers(F, C)
     check_value_shapes_reread(F, C)
     check_dep3_fallbacks(F, C)
+    check_repositories_reject(F, C)
     # ------------------------------------------------------------------ D5 paragraph-level print/re-read of every lossy document struct
     # (the per-struct analysis of C16, restricted to the structs the lossy documents are made of)
     import c16
@@ -327,6 +328,54 @@ def check_dep3_fallbacks(F, C):
                 lossless_vals = {x for x in lossless_vals if "'unk'" not in x} or lossless_vals     # drop undecided forks of split().next()
                 C.ob("C20/dep3-fallbacks", label, len(lossy_vals) == 1 and lossy_vals == lossless_vals,
                      "the lossy reader yields %s = %s, the lossless accessor %s() yields %s" % (field, sorted(lossy_vals), acc, sorted(lossless_vals)), lf["sp"])
+
+
+def check_repositories_reject(F, C):
+    """apt-sources: a stanza whose typed conversion fails makes the whole list fail (it is not silently dropped), and
+    every stanza that converts is kept, in order"""
+    k = "<apt_sources::Repositories as core::str::traits::FromStr>::from_str"
+    f = F.fn(k)
+    if not C.ob("C20/anchor", k, f is not None, "not found"):
+        return
+    for nm, results in (("second of three stanzas fails", ["ok0", "ERR", "ok2"]), ("all three convert", ["ok0", "ok1", "ok2"]), ("the only stanza fails", ["ERR"]), ("no stanza", [])):
+        class M(roundtrip.RTMod):
+            def intrinsic(self, I, callee, args, st, n, results=results):
+                if callee == "core::str::<impl str>::parse" or callee.endswith("lossless::Deb822 as core::str::traits::FromStr>::from_str"):
+                    return [(OK, ("enum", OKV, (("abs", "doc"),)), st)]
+                if callee.endswith("Deb822::paragraphs"):
+                    return [(OK, ("abs", "siter", tuple(("abs", "para", i) for i in range(len(results))), 0), st)]
+                if callee.endswith("FromDeb822Paragraph<deb822_lossless::lossless::Paragraph>>::from_paragraph") or callee.endswith("::from_paragraph"):
+                    p = I.deref_val(st, args[0])
+                    r = results[p[2]] if p[0] == "abs" and p[1] == "para" else "ERR"
+                    return [(OK, ("enum", ERRV, (symstr.lit("missing field"),)) if r == "ERR" else ("enum", OKV, (("abs", "repo", r),)), st)]
+                if callee == "core::iter::traits::iterator::Iterator::collect" and (n.get("ty", "") if isinstance(n, dict) else "").startswith("core::result::Result<"):
+                    a0 = I.deref_val(st, args[0])
+                    if a0[0] == "abs" and a0[1] == "siter":
+                        vals = []
+                        for it in a0[2][a0[3]:]:
+                            if it[0] == "enum" and it[1] == OKV:
+                                vals.append(it[2][0])
+                            else:
+                                return [(OK, it, st)]
+                        return [(OK, ("enum", OKV, (("abs", "svec", tuple(vals)),)), st)]
+                return super().intrinsic(I, callee, args, st, n)
+        I = hirai.Interp(F, M(F))
+        res = I.inline(f, [("abs", "text")], hirai.State(depth=0))
+        got = []
+        for ctl, v, s in res:
+            v = I.deep_deref(s, I.deref_val(s, v), 0) if ctl == OK else v
+            if ctl == OK and v[0] == "enum" and v[1] == ERRV:
+                got.append("Err")
+            elif ctl == OK and v[0] == "enum" and v[1] == OKV:
+                inner = v[2][0]
+                vec = inner[2][0] if inner[0] in ("enum", "struct") and inner[2] else inner
+                if isinstance(vec, tuple) and len(vec) == 2 and vec[0] == "0":
+                    vec = vec[1]
+                got.append([x[2] for x in vec[2]] if isinstance(vec, tuple) and vec and vec[0] == "abs" and vec[1] in ("svec", "siter") else "Ok(%s)" % str(inner)[:60])
+            else:
+                got.append("%s %s" % (ctl, str(v)[:60]))
+        want = ["Err"] if "ERR" in results else [list(results)]
+        C.ob("C20/repositories-reject", nm, got == want, "Repositories::from_str yields %s, expected %s" % (got, want), f["sp"])
 
 
 def check_value_shapes_reread(F, C):
